@@ -67,6 +67,13 @@ def out_matches(cmd, obs, lab):
             diffs.append('skipped-directory reports: observed %s, specification %s' % (sorted(obs['diag']), sorted(lab['diag'])))
         if obs['unparsed']:
             diffs.append('unparsed output records: %r' % obs['unparsed'][:3])
+    elif cmd == 'listdirs':
+        for k in ('found', 'notsticky', 'symlink', 'volumes'):
+            if sorted(obs[k]) != sorted(lab[k]):
+                diffs.append('trash-list --%s, %s: observed %s, specification %s' % (
+                    'volumes' if k == 'volumes' else 'trash-dirs', k, sorted(obs[k]), sorted(lab[k])))
+        if obs['unparsed']:
+            diffs.append('unparsed --trash-dirs / --volumes lines: %r' % obs['unparsed'][:3])
     elif cmd == 'restore':
         if obs['listing'] != lab['listing']:
             diffs.append('restore listing: observed %s, specification %s' % (obs['listing'], lab['listing']))
